@@ -101,12 +101,11 @@ theorem drained_exactly_once {σ : Type} (F : Framing σ) (cap maxTo : Nat) (d :
     every pending request: afterwards nothing is queued, nothing is in flight, nothing new was
     accepted and every accepted request has its completion.
 
-    Full statement, NOT proved: the same from EVERY reachable state, i.e. also while a phase is
-    running (there the sequence must first let the timeout of the request in flight and of every
-    queued request elapse).  Proved for that part: at its deadline the request in flight completes
-    (`at_deadline_timeout` in Props/C12), and `closed_trace_exactly_once` (the task dropped).
-    Missing: that `settle`'s fuel suffices to run the task until it blocks in every reachable
-    state, which needs a termination measure over the reader for an arbitrary framing. -/
+    The full statement — the same from EVERY reachable state in which the task is alive, also while
+    a phase is running — is `drain_completes` in Props/C10Drain.lean (proved with a termination
+    measure over queue, phases, unread transport bytes, parser state and position; the framing
+    hypothesis `Consuming` is proved for MBAP and RTU).  This theorem is kept as the special case
+    with an explicit continuation. -/
 theorem drain_completes_partial {σ : Type} (F : Framing σ) (cap maxTo : Nat) (d : Decode)
     (coins : List Bool) (steps : List Step) (s : State σ)
     (hs : s = runState F (State.init F cap maxTo d coins) steps)
